@@ -3,6 +3,7 @@
 -/
 import MosVerif.Model.LimiterConc
 import MosVerif.Lemmas.LimiterTable
+import MosVerif.Lemmas.LimiterClock
 namespace MosVerif.Limiter
 
 @[simp] theorem upd_same {α β : Type} [DecidableEq α] (f : α → β) (a : α) (v : β) : upd f a v a = v := by
@@ -176,12 +177,6 @@ theorem CState.abs_m_used (s : CState) (k : Addr) (id ls : Nat) (h : s.map k = s
     (hl : (s.heap id).lastSeen = some ls) : s.abs.m k = some ⟨(s.heap id).b, ls⟩ := by
   simp [CState.abs, h, hl]
 
-theorem ClientLimiter.m_allowN_same (cl : ClientLimiter) (a : Addr) (t n : Nat) :
-    (cl.allowN a t n).2.m (mask cl.opts a)
-      = some ⟨((cl.bucketOf (mask cl.opts a)).allowN cl.limit cl.burst t n).2, t⟩ := by
-  simp [ClientLimiter.allowN, ClientLimiter.bucketOf, Table.set]
-  rfl
-
 theorem ClientLimiter.gc_m_other (cl : ClientLimiter) (now : Nat) (k k' : Addr) (h : k' ≠ k) :
     (cl.gc now (some k)).m k' = cl.m k' := by
   simp only [ClientLimiter.gc, ClientLimiter.gcWith]
@@ -224,10 +219,10 @@ theorem ClientLimiter.gc_m_same_none (cl : ClientLimiter) (now : Nat) (k : Addr)
   simp only [ClientLimiter.gc, ClientLimiter.gcWith, h]
 
 /-- a `locked` region on a live entry is the sequential `AllowN` -/
-theorem CState.sim_allow (s : CState) (h : s.Inv) (id : Nat) (addr : Addr) (now n : Nat)
+theorem CState.sim_allow (s : CState) (h : s.Inv) (id : Nat) (addr : Addr) (now0 n : Nat)
     (hh : s.holds id addr) (hd : (s.heap id).dead = false) :
-    (s.step (.locked id addr now n)).1 = some (s.abs.allowN addr now n).1 ∧
-    (s.step (.locked id addr now n)).2.abs = (s.abs.allowN addr now n).2 := by
+    (s.step (.locked id addr now0 n)).1 = some (s.abs.allowN addr now0 n).1 ∧
+    (s.step (.locked id addr now0 n)).2.abs = (s.abs.allowN addr now0 n).2 := by
   have hmap : s.map (mask s.opts addr) = some id := by rw [← hh.2]; exact h.live id hh.1 hd
   have hbk : s.abs.bucketOf (mask s.abs.opts addr) = (s.heap id).b := by
     show s.abs.bucketOf (mask s.opts addr) = _
@@ -235,11 +230,24 @@ theorem CState.sim_allow (s : CState) (h : s.Inv) (id : Nat) (addr : Addr) (now 
     cases hl : (s.heap id).lastSeen with
     | none => rw [s.abs_m_virgin _ id hmap hl, h.virgin id hh.1 hl]
     | some ls => rw [s.abs_m_used _ id ls hmap hl]
-  have hstep : s.step (.locked id addr now n) =
-      (some ((s.heap id).b.allowN s.limit s.burst now n).1,
-        { s with heap := upd s.heap id ⟨((s.heap id).b.allowN s.limit s.burst now n).2, some now, false⟩ }) := by
+  -- the sequential limiter clamps to the same clock
+  have hclk : s.abs.clock addr now0 = (s.heap id).clock now0 := by
+    show (match s.abs.m (mask s.opts addr) with
+      | some e => max e.lastSeen now0
+      | none => now0) = _
+    unfold CEntry.clock
+    cases hl : (s.heap id).lastSeen with
+    | none => rw [s.abs_m_virgin _ id hmap hl]
+    | some ls => rw [s.abs_m_used _ id ls hmap hl]
+  have hstep : s.step (.locked id addr now0 n) =
+      (some ((s.heap id).b.allowN s.limit s.burst ((s.heap id).clock now0) n).1,
+        { s with heap := upd s.heap id ⟨((s.heap id).b.allowN s.limit s.burst ((s.heap id).clock now0) n).2,
+            some ((s.heap id).clock now0), false⟩ }) := by
     simp only [CState.step, if_pos hh, hd, Bool.false_eq_true, if_false]
   rw [hstep]
+  show _ = some (s.abs.allowNAt addr (s.abs.clock addr now0) n).1 ∧ _ = (s.abs.allowNAt addr (s.abs.clock addr now0) n).2
+  rw [hclk]
+  generalize (s.heap id).clock now0 = now
   dsimp only
   constructor
   · rw [ClientLimiter.allowN_fst, hbk]; rfl
@@ -248,7 +256,7 @@ theorem CState.sim_allow (s : CState) (h : s.Inv) (id : Nat) (addr : Addr) (now 
     · subst hkk
       have h1 := s.abs.m_allowN_same addr now n
       rw [hbk] at h1
-      have h1' : (s.abs.allowN addr now n).2.m (mask s.opts addr) = _ := h1
+      have h1' : (s.abs.allowNAt addr now n).2.m (mask s.opts addr) = _ := h1
       rw [h1']
       have hm' : ({ s with heap := upd s.heap id ⟨((s.heap id).b.allowN s.limit s.burst now n).2, some now, false⟩ } : CState).map
           (mask s.opts addr) = some id := hmap
